@@ -520,7 +520,11 @@ def run_case(case: dict) -> dict:
                 Env.snap_tp = [e.tester_present_task is None or e.tester_present_task.done() for e in Env.ecus]
 
         if other_fd is not None:   # a run that blocks the event loop instead of waiting in a thread would never be released
-            watchdog = threading.Timer(3.0, lambda: release("watchdog"))
+            def bark():
+                said = any(isinstance(lv, int) and "waiting for flock" in m for lv, m in list(cap.items))
+                release("watchdog" if said else "watchdog-before-the-run-waited")
+
+            watchdog = threading.Timer(8.0, bark)
             watchdog.daemon = True
             watchdog.start()
         Env.snap_tp = []
